@@ -12,15 +12,15 @@ import isotp
 
 THEOREMS = 'IsoTp.Props.C19'
 RULE = ('sequences of set_opts / set_fc_opts / set_ll_opts calls on an isotp.socket whose underlying socket is a fake kernel socket '
-        '(byte store only): each argument independently None / 0 / maximum / maximum+1 / -1 / 1.5 / "x"; all single calls with one or '
+        '(byte store only): each argument independently None / 0 / maximum / maximum+1 / -1 / 1.5 / an integral float / "x"; all single calls with one or '
         'two non-None arguments exhaustively, random 3-call (quick) / 4-call (thorough) sequences. The raw setsockopt log is compared '
         'byte for byte with the calls of the extracted Coq wrapper model; the bytes are interpreted by the extracted Coq kernel Spec '
         '(uapi layouts) and the kernel-visible state is compared with the reference "None means unchanged, given values stored, implied '
         'flag set"; invalid argument <-> ValueError and no setsockopt; get_* return what the kernel holds.')
 ASSUME = ['little-endian struct layout (struct.pack("=...") on this platform); the Linux kernel is represented by Spec/Kernel.v']
 
-VALS32 = [None, 0, 0xFFFFFFFF, 0x100000000, -1, 1.5, 'x', 0x84, 50000]
-VALS8 = [None, 0, 0xFF, 0x100, -1, 1.5, 'x', 0x55]
+VALS32 = [None, 0, 0xFFFFFFFF, 0x100000000, -1, 1.5, 'x', 0x84, 50000, 2.0]
+VALS8 = [None, 0, 0xFF, 0x100, -1, 1.5, 'x', 0x55, 8.0]      # 8.0 / 2.0: a float with an integral value is not an integer either
 FLAG = {'ext_address': 0x002, 'txpad': 0x004, 'rxpad': 0x008, 'rx_ext_address': 0x200, 'tx_stmin': 0x080}
 GEN_KEYS = ['optflag', 'frame_txtime', 'ext_address', 'txpad', 'rxpad', 'rx_ext_address', 'tx_stmin']
 MAXV = {'optflag': 0xFFFFFFFF, 'frame_txtime': 0xFFFFFFFF, 'ext_address': 0xFF, 'txpad': 0xFF, 'rxpad': 0xFF, 'rx_ext_address': 0xFF, 'tx_stmin': 0xFFFFFFFF}
